@@ -202,7 +202,19 @@ func parseParam(ws []string) any {
 	return 7
 }
 
-// beh=const:<name> | key:<k> | empty | panic | none
+var (
+	nestDepth int
+	parkHook  func() // one-shot: parks the route function that is about to read its parameter (op `race`)
+)
+
+func park() {
+	if h := parkHook; h != nil {
+		parkHook = nil
+		h()
+	}
+}
+
+// beh=const:<name> | key:<k> | nest:<k>,<typeB>,<kvs> | empty | panic | none
 func mkFunc(beh string) route.RouteFunc {
 	switch {
 	case strings.HasPrefix(beh, "const:"):
@@ -211,7 +223,26 @@ func mkFunc(beh string) route.RouteFunc {
 	case strings.HasPrefix(beh, "key:"):
 		k := beh[4:]
 		// the shape of every route function shipped with cell2 (mmo, chat2)
-		return func(_ string, p route.IRouteParam) string { return p.Get(k, "").(string) }
+		return func(_ string, p route.IRouteParam) string { park(); return p.Get(k, "").(string) }
+	case strings.HasPrefix(beh, "nest:"):
+		// nest:<k>,<typeB>,<inner kvs>: a route function that first asks the router about ANOTHER
+		// type with a DIFFERENT key map (re-entrant Route), then answers from its own parameter
+		f := strings.SplitN(beh[5:], ",", 3)
+		if len(f) != 3 {
+			return nil
+		}
+		k, tb, inner := f[0], f[1], f[2]
+		return func(_ string, p route.IRouteParam) string {
+			if nestDepth == 0 { // one level: rule tables may point at each other
+				nestDepth++
+				func() {
+					defer func() { nestDepth-- }()
+					_ = route.GetRouteService().Route(tb, parseKVs(inner))
+				}()
+			}
+			park()
+			return p.Get(k, "").(string)
+		}
 	case beh == "empty":
 		return func(string, route.IRouteParam) string { return "" }
 	case beh == "panic":
@@ -356,6 +387,24 @@ func (x *harness) exec(op string) string {
 		return hx.Guard(func() string { return "pid=" + showPID(app.GetWorkServicePID(kv("name"))) })
 	case "firstwork":
 		return hx.Guard(func() string { return "pid=" + showPID(app.GetFirstWorkService(kv("type"))) })
+	case "race":
+		// Route(ta, map pa) is started on its own goroutine and parked inside its route function
+		// (just before it reads its parameter); meanwhile Route(tb, map pb) runs to completion here.
+		pa, pb := parseKVs(kv("pa")), parseKVs(kv("pb"))
+		resume := make(chan struct{})
+		done := make(chan struct{})
+		var r1 string
+		parkHook = func() { <-resume }
+		go func() {
+			defer close(done)
+			r1 = hx.Guard(func() string { return route.GetRouteService().Route(kv("ta"), pa) })
+		}()
+		synctest.Wait()
+		parkHook = nil
+		r2 := hx.Guard(func() string { return route.GetRouteService().Route(kv("tb"), pb) })
+		close(resume)
+		<-done
+		return "a=" + r1 + " b=" + r2
 	case "split":
 		a, b, c := app.SplitClientRoute(kv("r"))
 		return fmt.Sprintf("t=%s a=%s m=%s", a, b, c)
@@ -536,7 +585,10 @@ func (g *gen) param() string {
 func (g *gen) ruleOp() string {
 	h := g.h
 	var beh string
-	switch h.R.Intn(9) {
+	switch h.R.Intn(11) {
+	case 9, 10:
+		k := g.pick(keys)
+		beh = "nest:" + k + "," + g.typ() + "," + k + "~s" + g.name()
 	case 0, 1, 2:
 		beh = "key:" + g.pick(keys)
 	case 3, 4:
@@ -598,6 +650,10 @@ func (g *gen) callOp() string {
 		h.Count("op.firstwork")
 		return "firstwork type=" + g.typ()
 	case 6:
+		if h.R.Intn(2) == 0 {
+			h.Count("op.race")
+			return "race ta=" + g.typ() + " pa=" + g.kvs() + " tb=" + g.typ() + " pb=" + g.kvs()
+		}
 		h.Count("op.split")
 		return "split r=" + g.routeStr()
 	case 7, 8, 9, 10:
@@ -627,7 +683,8 @@ var gridViews = []string{
 	"view m=c@n1|h1|1|1|+chat.c1 m=c@n1|h2|2|1|+chat.c2",
 	"view m=c@n1|h1|1|0|+chat.c9 m=c@n2|h2|2|3|+chat.c2 m=c@n3||3|1|+chat.c1+gate.g1 m=n4|h4|4|5|+chat.c1",
 }
-var gridRules = []string{"none", "const:c1", "const:c9", "const:", "key:chatid", "empty", "panic"}
+var gridRules = []string{"none", "const:c1", "const:c9", "const:", "key:chatid", "empty", "panic",
+	"nest:chatid,gate,chatid~sc2", "nest:chatid,gate,chatid~sc1", "nest:chatid,chat,k~sc1", "nest:chatid,nosuch,"}
 var gridParams = []string{"nil", "tnil", "sess:", "sess:chatid~sc1", "sess:chatid~sc2", "sess:chatid~sc9", "sess:chatid~i1",
 	"sess:k~sc1", "map:chatid~sc1", "map:", "map:chatid~sc1;chatid~sc2", "str:c1", "str:", "str:c9", "str:x", "str:no_service",
 	"other:int", "other:smap", "other:slice", "other:ptr"}
@@ -652,6 +709,12 @@ func grid(run func(string), def int, rules []string) int {
 			for _, p := range gridParams {
 				do("pid type=chat p=" + p)
 				do("route type=chat p=" + p)
+			}
+			for _, pa := range []string{"chatid~sc1", "chatid~sc2", "", "chatid~i1"} {
+				for _, pb := range []string{"chatid~sc2", "chatid~sc9"} {
+					do("race ta=chat pa=" + pa + " tb=chat pb=" + pb)
+					do("race ta=chat pa=" + pa + " tb=gate pb=" + pb)
+				}
 			}
 			for _, f := range gridFronts {
 				do("qs front=" + f + " sid=1")
